@@ -1,10 +1,268 @@
-"""C03: decided with spec/Channel (see channel_common.py, DESIGN.md 4.1 and 5)."""
+"""C03: Reconnection always resynchronises.
+
+Part 1 (channel level): decided with spec/Channel (see channel_common.py, DESIGN.md 4.1 and 5): ChanSyncMsg /
+ProcessChanSyncMsg on reloaded LightningChannels.
+
+Part 2 (link level, this file): spec/Channel/LinkResync*.tla - what drives the exchange in the running node: two real
+htlcswitch.channelLinks over one channel, one connection epoch after another (resumeLink / syncChanStates /
+resolveFwdPkgs / mailbox replay / hold invoices / update_fee / the peer layer's shutdown glue).  MC (LinkResyncMC, three
+bounded configurations + the defect-switch witness BlockInOnResume) -> behaviours (LinkResyncGen) ->
+harness/htlcswitch/c03_link_test.go -> TLC trace validation (LinkResyncTrace) -> negative controls.  Violation keys of
+this part start with "C03link:"; VERIF_C03_PARTS=link|channel runs one part alone (development only).
+"""
+import copy
+import os
+
 from . import channel_common
+from .. import core
+from ..core import Inconclusive
 
 LEVEL = "model_checking"
+SPEC = channel_common.SPEC
+LINK_HARNESS = ["htlcswitch/c03_link_test.go"]
+
+
+def is_reset(r):
+    return r.get("a") == "Reset"
+
+
+def link_traces(recs):
+    out, cur = [], []
+    for r in recs:
+        if is_reset(r) and cur:
+            out.append(cur)
+            cur = []
+        cur.append(r)
+    if cur:
+        out.append(cur)
+    return out
+
+
+def link_short(r):
+    a = r.get("a")
+    if a == "Deliver":
+        m = r.get("msg", {})
+        return "Deliver(%s,%s%s)" % (r.get("p"), m.get("k"), ":%d" % m.get("h") if m.get("k") in ("add", "settle", "fail") else "")
+    if a == "Add":
+        return "Add(%s,%d)" % (r.get("p"), r.get("x", 0))
+    if a in ("Tick", "Shutdown"):
+        return "%s(%s)" % (a, r.get("p"))
+    return a
+
+
+def link_mc(ck, cfg, what, name, heap, must_hold=True, **kw):
+    """ck.model_check + a guard: a TLC process that ended without a verdict (e.g. killed by the kernel's OOM killer on a
+    shared machine) must not count as a passed model check."""
+    r = ck.model_check(SPEC, "LinkResyncMC", cfg, what, must_hold=must_hold, workers=min(core.NCPU, 4), heap=heap,
+                       name=name, **kw)
+    if not r.ok and not r.violation:
+        raise Inconclusive("TLC ended without a verdict on LinkResyncMC/%s (%s), rc=%s:\n%s" % (cfg, what, r.rc, r.out[-1500:]))
+    return r
+
+
+def link_model_check(ck, thorough):
+    """The property on the model, and the witness that the rule is not vacuous: with the named defect switch the
+    invariant it guards must fail."""
+    link_mc(ck, "LinkResyncMC.cfg", "LinkResync MaxAdds=2 MaxFlaps=2 MaxShut=1 MaxFees=0", "mc_link", "3g", timeout=600)
+    link_mc(ck, "LinkResyncMC_fee.cfg", "LinkResync MaxAdds=1 MaxFlaps=2 MaxShut=1 MaxFees=1", "mc_link_fee", "2g",
+            timeout=600)
+    link_mc(ck, "LinkResyncMC_hold.cfg", "LinkResync hold invoices MaxAdds=1 MaxFlaps=2 MaxShut=1", "mc_link_hold", "2g",
+            timeout=600)
+    if thorough:
+        link_mc(ck, "LinkResyncMC.cfg", "LinkResync MaxAdds=2 MaxFlaps=2 MaxShut=1 MaxFees=1 (3 rates)", "mc_link_fee_wide",
+                "4g", constants={"MaxFees": 1}, timeout=1800)
+        link_mc(ck, "LinkResyncMC_hold.cfg", "LinkResync hold invoices MaxAdds=2 MaxFlaps=2 MaxShut=1", "mc_link_hold_wide",
+                "4g", constants={"MaxAdds": 2}, timeout=1800)
+    r = link_mc(ck, "LinkResyncMC.cfg", "witness BlockInOnResume (NoFailure must fail)", "mc_link_wit_blockin", "2g",
+                must_hold=False, constants={"BlockInOnResume": "TRUE"}, timeout=600)
+    if r.violation != "invariant NoFailure":
+        raise Inconclusive("LinkResync witness: BlockInOnResume = TRUE does not violate NoFailure (%s): the rule is vacuous"
+                           % r.violation)
+    ck.cov.setdefault("witnesses", []).append(dict(switch="BlockInOnResume", violates="NoFailure", states=r.distinct))
+
+
+def link_negative_controls(ck, traces):
+    """Corrupt one recorded field of an accepted trace; the validator must reject each."""
+    def pick(pred):
+        for tr in traces:
+            for i, r in enumerate(tr):
+                if i > 0 and pred(r):
+                    return tr, i
+        return None, None
+
+    ctrls = [
+        ("a link failure recorded on a valid step", "NoLinkFailure",
+         lambda r: r.get("a") == "Deliver" and r.get("msg", {}).get("k") == "add",
+         lambda r: r["fail"].__setitem__(r["p"], "invalid update")),
+        ("one emitted message dropped from the record", "ConformOut",
+         lambda r: r.get("a") == "Deliver" and len(r.get("out", {}).get(r.get("p"), [])) >= 2,
+         lambda r: r["out"][r["p"]].pop()),
+        ("local commitment height +1", "ConformHeights",
+         lambda r: r.get("a") == "Deliver" and r.get("msg", {}).get("k") == "sig",
+         lambda r: r["st"][r["p"]].__setitem__("lh", r["st"][r["p"]]["lh"] + 1)),
+        ("fee rate of the local commitment +1 sat/kw", "ConformFee",
+         lambda r: r.get("a") == "Deliver" and r.get("msg", {}).get("k") == "sig" and r.get("p") == "B"
+         and r["st"]["B"]["lfee"] != 6000,
+         lambda r: r["st"]["B"].__setitem__("lfee", r["st"]["B"]["lfee"] + 1)),
+        ("the answer to a hold-invoice decision removed from the record", "ConformOut",
+         lambda r: r.get("a") == "Decide" and len(r["out"]["A"]) + len(r["out"]["B"]) > 0,
+         lambda r: r.__setitem__("out", {"A": [], "B": []})),
+    ]
+    for k, (what, expect, pred, mut) in enumerate(ctrls):
+        tr, i = pick(pred)
+        if tr is None:
+            ck.notes.append("link negative control skipped (no candidate): " + what)
+            continue
+        bad = copy.deepcopy(tr)
+        mut(bad[i])
+        p = os.path.join(ck.out, "link_control_%d.ndjson" % k)
+        core.write_ndjson(p, bad)
+        v = ck.validate(SPEC, "LinkResyncTrace", "LinkResyncTrace.cfg", p, name="link_control_%d" % k)
+        if v["ok"]:
+            raise Inconclusive("link negative control (%s at line %d) was accepted: validation is not binding" % (what, i + 1))
+        ck.cov.setdefault("negative_controls", []).append(
+            dict(part="link", mutation=what, line=i + 1, rejected_by=v["invariant"], at_line=v["line"]))
+
+
+def link_part(ck):
+    thorough = ck.tier == "thorough"
+    link_model_check(ck, thorough)
+    n = 240 if thorough else 36
+    gconst = dict(MaxAdds=5, MaxFees=3, MaxLen=60) if thorough else dict(MaxAdds=4, MaxFees=2, MaxLen=45)
+    files = ck.generate(SPEC, "LinkResyncGen", "LinkResyncGen.cfg", n, gconst["MaxLen"] + 10, constants=gconst,
+                        name="gen_link", timeout=900)
+    sched = os.path.dirname(files[0])
+    # every behaviour ends with a Drain step: deliver / tick until nothing is left to do
+    for f in files:
+        with open(f, "a") as fo:
+            fo.write('{"a":"Drain","p":"A","x":0,"y":0}\n')
+    res = ck.go_test("./htlcswitch/", "^TestVerifC03Link$", LINK_HARNESS,
+                     env={"VERIF_SCHED": sched, "VERIF_PAR": 4}, timeout=1500, name="exec_link")
+    trace = os.path.join(res["dir"], "trace_link.ndjson")
+    if "panic:" in res["out"] and "--- FAIL" in res["out"]:
+        ck.violation("C03link:panic", "real htlcswitch code panicked while replaying a LinkResync behaviour",
+                     files={"go.out": os.path.join(res["dir"], "go.out")}, text=res["out"][-4000:])
+        return
+    if res["rc"] != 0 or not os.path.exists(trace) or os.path.getsize(trace) == 0:
+        raise Inconclusive("link executor failed:\n" + res["out"][-3000:])
+    recs = core.read_ndjson(trace)
+    aborted = [r for r in recs if r.get("a") == "Abort"]
+    if aborted:
+        raise Inconclusive("link executor could not run %d behaviours (harness problem, no verdict): %s" % (
+            len(aborted), aborted[0].get("why")))
+    traces = link_traces(recs)
+    todo = list(recs)
+    accepted_all = True
+    seen = {}
+    while todo:
+        bp = os.path.join(ck.out, "link_batch.ndjson")
+        core.write_ndjson(bp, todo)
+        v = ck.validate(SPEC, "LinkResyncTrace", "LinkResyncTrace.cfg", bp, name="val_link", timeout=1200)
+        if v["ok"]:
+            break
+        accepted_all = False
+        line = v["line"] or 1
+        a, e = core.slice_trace(todo, line, is_reset)
+        one = os.path.join(ck.out, "failing_link_trace.ndjson")
+        core.write_ndjson(one, todo[a:e])
+        bad = todo[min(line - 1, len(todo) - 1)]
+        inv = (v["invariant"] or "?").replace("invariant ", "")
+        what = link_short(bad)
+        fails = " / ".join("%s: %s" % (p, s) for p, s in sorted((bad.get("fail") or {}).items()) if s)
+        hist = " ".join(link_short(r) for r in todo[a + 1:line])
+        key = "C03link:%s:%s" % (inv, what.split("(")[0] + (
+            "(" + bad.get("msg", {}).get("k", "") + ")" if bad.get("a") == "Deliver" else ""))
+        seen[key] = seen.get(key, 0) + 1
+        ck.violation(key,
+                     "two real channelLinks deviate from spec/Channel/LinkResync: %s at %s (plan %s)%s" % (
+                         inv, what, todo[a].get("plan"), "; link failure: " + fails if fails else ""),
+                     files={"trace.ndjson": one, "schedule.ndjson": os.path.join(sched, str(todo[a].get("plan")))},
+                     text="history: " + hist[-3000:] + "\n\nmodel state:\n" + (v["cex"] or ""))
+        todo = todo[e:]
+        # (the same deviation shows in many behaviours: two examples of a key are enough)
+        if seen[key] >= 2 or len(seen) > 4:
+            break
+    # evidence
+    hashes = set()
+    per_action = {}
+    flaps_after_shut = 0
+    held_over_flap = 0
+    for tr in traces:
+        acts = [(r["a"], r.get("p"), r.get("x"), (r.get("msg") or {}).get("k")) for r in tr[1:]]
+        if any(a[0] == "Flap" for a in acts):
+            hashes.add(core.sha(str(acts)))
+        shut = False
+        for r in tr[1:]:
+            per_action[r["a"]] = per_action.get(r["a"], 0) + 1
+            if r["a"] == "Shutdown" and r.get("res") == "ok":
+                shut = True
+            if r["a"] == "Flap" and shut:
+                flaps_after_shut += 1
+            if r["a"] == "Flap" and any(len(r["st"][p]["lhtlc"]) > 0 for p in ("A", "B")):
+                held_over_flap += 1
+    ck.cov["evaluations"] += sum(1 for r in recs if not is_reset(r))
+    ck.cov["distinct_nontrivial"] += len(hashes)
+    ck.cov["traces_validated_against_impl"] += len(traces)
+    ck.cov["link_part"] = dict(behaviours=len(traces), steps_per_action=per_action,
+                               reconnects_after_a_sent_shutdown=flaps_after_shut,
+                               reconnects_with_htlcs_on_a_commitment=held_over_flap,
+                               distinct_with_reconnect=len(hashes))
+    ck.cov["rule"] = (ck.cov.get("rule") or "") + (
+        " | link part: TLC -simulate behaviours of LinkResyncGen replayed on two real channelLinks (+Drain); distinct = "
+        "distinct (action, side, delivered message kind) sequences; non-trivial = contains at least one reconnect")
+    ck.cov["samples"].append(dict(link_trace_prefix=[link_short(r) for r in traces[0][1:30]]))
+    ck.cov["trusted_base"] = list(ck.cov.get("trusted_base") or []) + [
+        "link executor: capture of SendMessage, idle detection by sentinel message, field-copy projection",
+        "transcription of htlcswitch/link.go + peer shutdown glue into spec/Channel/LinkResync"]
+    ck.assumptions += ["link part: the connection drops between two handled messages (a link is never killed inside "
+                       "one critical section; crash points inside are C02/C08)",
+                       "link part: exit-hop HTLCs only, incl. hold invoices (forwarding is C07/C08), one channel type "
+                       "(tweakless fixture), fee rates 6000/9000/12000 sat/kw sampled by the initiator, "
+                       "the peer-layer shutdown glue is re-enacted by the executor as peer/brontide.go does it"]
+    if accepted_all and not ck.violations:
+        link_negative_controls(ck, traces)
+
+
+def replay_link(ck, path):
+    """--replay <violation dir of the link part>: re-execute the stored schedule on the current tree, judge it again."""
+    import shutil
+    sd = os.path.join(ck.out, "replay_sched")
+    os.makedirs(sd, exist_ok=True)
+    shutil.copy(os.path.join(path, "schedule.ndjson"), os.path.join(sd, "b_1.ndjson"))
+    res = ck.go_test("./htlcswitch/", "^TestVerifC03Link$", LINK_HARNESS, env={"VERIF_SCHED": sd, "VERIF_PAR": 1},
+                     timeout=1500, name="exec_link_replay")
+    trace = os.path.join(res["dir"], "trace_link.ndjson")
+    if res["rc"] != 0 or not os.path.exists(trace):
+        raise Inconclusive("link executor failed:\n" + res["out"][-3000:])
+    recs = core.read_ndjson(trace)
+    if any(r.get("a") == "Abort" for r in recs):
+        raise Inconclusive("link executor could not run the schedule: %s" % [r for r in recs if r.get("a") == "Abort"][0].get("why"))
+    v = ck.validate(SPEC, "LinkResyncTrace", "LinkResyncTrace.cfg", trace, name="val_link_replay")
+    ck.cov["evaluations"] += len(recs)
+    ck.cov["traces_validated_against_impl"] += 1
+    ck.cov["states"] = max(ck.cov["states"], 1)
+    ck.cov["transitions"] = max(ck.cov["transitions"], 1)
+    ck.cov["samples"].append(dict(replayed=path, steps=len(recs)))
+    if not v["ok"]:
+        bad = recs[min((v["line"] or 1) - 1, len(recs) - 1)]
+        inv = (v["invariant"] or "?").replace("invariant ", "")
+        what = link_short(bad)
+        ck.violation("C03link:%s:%s" % (inv, what.split("(")[0] + (
+            "(" + bad.get("msg", {}).get("k", "") + ")" if bad.get("a") == "Deliver" else "")),
+                     "replayed link schedule still deviates: %s at %s" % (inv, what),
+                     files={"trace.ndjson": trace, "schedule.ndjson": os.path.join(sd, "b_1.ndjson")}, text=v["cex"])
 
 
 def run(ck):
-    channel_common.run_channel(ck, "C03")
-    if ck.tier == "thorough" or __import__("os").environ.get("VERIF_API_LEVEL"):
-        channel_common.api_level_f1(ck)
+    parts = os.environ.get("VERIF_C03_PARTS", "channel,link").split(",")
+    rp = getattr(ck, "replay", None)
+    if rp:
+        if os.path.isdir(rp) and os.path.exists(os.path.join(rp, "schedule.ndjson")):
+            return replay_link(ck, rp)
+        return channel_common.run_channel(ck, "C03")
+    if "channel" in parts:
+        channel_common.run_channel(ck, "C03")
+        if ck.tier == "thorough" or os.environ.get("VERIF_API_LEVEL"):
+            channel_common.api_level_f1(ck)
+    if "link" in parts:
+        link_part(ck)
